@@ -18,6 +18,8 @@ import (
 	"fmt"
 	"go/ast"
 	"go/constant"
+	"go/importer"
+	"go/parser"
 	"go/token"
 	"go/types"
 	"os"
@@ -1120,33 +1122,29 @@ func preds(e0 *env) []pred {
 	return ps
 }
 
-// importsOf: the paths of the packages the (single-file) package imports, as go/types resolved them; every import spec must
-// unquote (strconv.Unquote: interpreted and raw string literals, escapes) to one of them.
+// importsOf: the paths of the packages THIS FILE imports, as go/types resolved them: the PkgName object go/types records for
+// every import spec (Info.Defs of its name, Info.Implicits of the spec). Every spec's literal must unquote (strconv.Unquote:
+// interpreted and raw string literals, escapes) to that path, and the package must be among the importing package's imports.
 func importsOf(t *hutil.Target) map[string]bool {
-	out := map[string]bool{}
+	ofPkg := map[string]bool{}
 	for _, im := range t.Pkg.Imports() {
-		out[im.Path()] = true
+		ofPkg[im.Path()] = true
 	}
+	out := map[string]bool{}
 	for _, spec := range t.File.Imports {
+		var obj types.Object
+		if spec.Name != nil {
+			obj = t.Info.Defs[spec.Name]
+		} else {
+			obj = t.Info.Implicits[spec]
+		}
+		pn, ok := obj.(*types.PkgName)
 		p, err := strconv.Unquote(spec.Path.Value)
-		if err != nil || !out[p] {
-			fmt.Fprintf(os.Stderr, "import spec %s of %s is not among go/types' imports %v\n", spec.Path.Value, t.Path, out)
+		if !ok || err != nil || pn.Imported().Path() != p || !ofPkg[p] {
+			fmt.Fprintf(os.Stderr, "import spec %s of %s: go/types says %v, the package imports %v\n", spec.Path.Value, t.Path, obj, ofPkg)
 			os.Exit(3)
 		}
-	}
-	if len(out) != len(uniqueSpecs(t)) {
-		fmt.Fprintf(os.Stderr, "imports of %s: go/types has %d packages, the file %d distinct specs\n", t.Path, len(out), len(uniqueSpecs(t)))
-		os.Exit(3)
-	}
-	return out
-}
-
-func uniqueSpecs(t *hutil.Target) map[string]bool {
-	out := map[string]bool{}
-	for _, spec := range t.File.Imports {
-		if p, err := strconv.Unquote(spec.Path.Value); err == nil {
-			out[p] = true
-		}
+		out[p] = true
 	}
 	return out
 }
@@ -1278,11 +1276,12 @@ type ruleOut struct {
 }
 
 type rule struct {
-	p     *pred
-	kind  string
-	out   *ruleOut
-	j     int
-	where *filt.DExpr
+	p      *pred
+	kind   string
+	out    *ruleOut
+	j      int
+	where  *filt.DExpr
+	locals string // constant declarations of the group (arguments written as names)
 }
 
 func main() {
@@ -1454,6 +1453,13 @@ func main() {
 			switch k {
 			case 's':
 				mkRule("single", "p%d($x)", "x")
+				// the same rule with its arguments written another way (raw / escaped / concatenated strings, hexadecimal / octal /
+				// computed numbers, names of group constants): irconv reads the VALUE go/types gives the argument
+				if d, locals, changed := filt.Respelled(p.mk("x"), i%4); changed && !p.refusable {
+					rules = append(rules, &rule{p: p, kind: "single", where: d, locals: locals,
+						out: &ruleOut{K: "rule", Name: p.name + " [arguments written another way]", Kind: "single", Ctor: p.ctor, Src: strings.TrimSpace(strings.ReplaceAll(locals, "\n\t", "; ")) + " " + d.Go(),
+							Pattern: "p%d($x)", Mode: p.mode, Obs: []obs{}}})
+				}
 				// the same predicate in a pattern with two variables, on the first and on the second one
 				mkRule("first", "p%d($x, $y)", "x")
 				mkRule("second", "p%d($x, $y)", "y")
@@ -1480,7 +1486,7 @@ func main() {
 			r.j = k
 			name := fmt.Sprintf("g%d", k)
 			byName[name] = r
-			frules[k] = filt.Rule{Name: name, Pattern: fmt.Sprintf(r.out.Pattern, k), Where: r.where}
+			frules[k] = filt.Rule{Name: name, Pattern: fmt.Sprintf(r.out.Pattern, k), Where: r.where, Locals: r.locals}
 		}
 		src := filt.RulesFile("", frules)
 		eng, lerr := filt.Load(t.Fset, src)
@@ -1830,22 +1836,77 @@ func main() {
 			}
 		} else {
 			st := ruleguard.NewRunnerState(eng)
-			for fi, f := range importFiles {
+			type impTarget struct {
+				name, imports string
+				t             *hutil.Target
+			}
+			var itargets []impTarget
+			fileSrc := func(pkg, imports, uses, sitesFn string, declare bool) string {
 				var sb strings.Builder
-				fmt.Fprintf(&sb, "package imp%d\n\n%s\n%s\n\n", fi, f.imports, f.uses)
-				for j := range irules {
-					fmt.Fprintf(&sb, "func p%d(args ...interface{}) {}\n", j)
+				fmt.Fprintf(&sb, "package %s\n\n%s\n%s\n\n", pkg, imports, uses)
+				if declare {
+					for j := range irules {
+						fmt.Fprintf(&sb, "func p%d(args ...interface{}) {}\n", j)
+					}
 				}
-				sb.WriteString("\nfunc sites() {\n")
+				fmt.Fprintf(&sb, "\nfunc %s() {\n", sitesFn)
 				for j := range irules {
 					fmt.Fprintf(&sb, "\tp%d(1)\n", j)
 				}
 				sb.WriteString("}\n")
-				ti, err := hutil.CheckTargetPkg(*tmp, fmt.Sprintf("imports/%s/x.go", f.name), []byte(sb.String()), fmt.Sprintf("example.com/imp%d", fi))
+				return sb.String()
+			}
+			for fi, f := range importFiles {
+				ti, err := hutil.CheckTargetPkg(*tmp, fmt.Sprintf("imports/%s/x.go", f.name), []byte(fileSrc(fmt.Sprintf("imp%d", fi), f.imports, f.uses, "sites", true)), fmt.Sprintf("example.com/imp%d", fi))
 				if err != nil {
 					fmt.Fprintln(os.Stderr, err)
 					os.Exit(3)
 				}
+				itargets = append(itargets, impTarget{f.name, f.imports, ti})
+			}
+			// one package of three files with different imports: the predicate is about the file, not about the package
+			{
+				parts := []struct{ name, imports, uses string }{
+					{"multi/a.go", "import \"fmt\"\nimport `os`\n", "var _ = fmt.Sprint\nvar _ = os.Exit"},
+					{"multi/b.go", "import (\n\tstr \"strings\"\n\t_ \"io/fs\"\n)\n", "var _ = str.ToUpper"},
+					{"multi/c.go", "", ""},
+				}
+				fset := token.NewFileSet()
+				var files []*ast.File
+				var srcs [][]byte
+				var paths []string
+				for k, pt := range parts {
+					src := []byte(fileSrc("impmulti", pt.imports, pt.uses, fmt.Sprintf("sites%d", k), k == 0))
+					path := filepath.Join(*tmp, "imports", pt.name)
+					if err := os.MkdirAll(filepath.Dir(path), 0o755); err != nil {
+						fmt.Fprintln(os.Stderr, err)
+						os.Exit(3)
+					}
+					if err := os.WriteFile(path, src, 0o644); err != nil {
+						fmt.Fprintln(os.Stderr, err)
+						os.Exit(3)
+					}
+					af, err := parser.ParseFile(fset, path, src, parser.ParseComments)
+					if err != nil {
+						fmt.Fprintln(os.Stderr, err)
+						os.Exit(3)
+					}
+					files, srcs, paths = append(files, af), append(srcs, src), append(paths, path)
+				}
+				info := hutil.NewInfo()
+				conf := types.Config{Importer: importer.ForCompiler(fset, "source", nil)}
+				pkg, err := conf.Check("example.com/impmulti", fset, files, info)
+				if err != nil {
+					fmt.Fprintln(os.Stderr, "multi-file package:", err)
+					os.Exit(3)
+				}
+				for k, pt := range parts {
+					itargets = append(itargets, impTarget{"one of three files of a package: " + pt.name, pt.imports,
+						&hutil.Target{Fset: fset, File: files[k], Info: info, Pkg: pkg, Src: srcs[k], Path: paths[k]}})
+				}
+			}
+			for fi, f := range itargets {
+				ti := f.t
 				imported := importsOf(ti)
 				// the model's input: the spelling of every import path literal and what strconv.Unquote makes of it
 				specs := [][2]string{}
